@@ -121,14 +121,14 @@ class A:  # pylint: disable=too-few-public-methods
         return 'q.A' + repr(sorted(vars(self).items()))
 
 
-class B:  # pylint: disable=too-few-public-methods
+class Bcd:  # pylint: disable=too-few-public-methods
     func = Func.get
 
     def __repr__(self):
-        return 'q.B' + repr(sorted(vars(self).items()))
+        return 'q.Bcd' + repr(sorted(vars(self).items()))
 
 
-for _c in (A, B):
+for _c in (A, Bcd):
     _c.__module__ = 'q'
     _c.__qualname__ = _c.__name__
     setattr(_q, _c.__name__, _c)
@@ -203,15 +203,20 @@ def _opt(b):
 def tiny_payloads(name):
     '''(short, long) payload pairs: (object, pickled bytes)'''
     if name == 'farm':
-        objs = [7, 'tsk.alg']
+        objs = [7, (1, 2)]
         return [(o, _opt(pickle.dumps(o, 2))) for o in objs]
     if name == 'db':
         a = A()
-        b = B()
-        b.k = 1
+        b = Bcd()
         return [(a, _opt(pickle.dumps(a, 2))), (b, _opt(pickle.dumps(b, 2)))]
-    objs = [{'msg': 1}, {'msg': 'x', 'args': None}]
-    return [(o, _opt(pickle.dumps(o, 1))) for o in objs]
+    # protocol-1 pickles written by hand (SHORT_BINSTRING keys)
+    pay = [
+        ({'msg': 1}, b'}U\x03msgK\x01s.'),
+        ({'msg': 'xy'}, b'}U\x03msgU\x02xys.'),
+    ]
+    for obj, blob in pay:
+        assert pickle.loads(blob) == obj
+    return pay
 
 
 def real_payloads(name):
@@ -350,8 +355,14 @@ def _where(data, cuts):
     return '+'.join(sorted(kinds)) or 'whole'
 
 
+_EXPECTED = {}
+
+
 def check_reassembly(tally, name, label, objs, data, cuts, kind):
-    expected = [_expected_render(name, o) for o in objs]
+    key = (name, kind, label)
+    if key not in _EXPECTED:
+        _EXPECTED[key] = [_expected_render(name, o) for o in objs]
+    expected = _EXPECTED[key]
     try:
         got = run_reassembly(name, data, cuts)
     except Exception as exc:  # pylint: disable=broad-except
@@ -410,7 +421,7 @@ def _fix_challenge():
 
 FAULTS = ('p1', 's1', 'p4', 's2', 'echo')
 LENGTH_FAULTS = ('l1short', 'l2short', 'l2long')
-IDENT = b' machine: h\nusername: u\n'
+IDENT = b'id'
 TAILS = ('none', 'one', 'two', 'partial')
 
 
@@ -699,7 +710,7 @@ def plan(tier, seed):
                 if name == 'farm' and faults in single:
                     if thorough:
                         ks = (2, 3)
-                    elif (not faults and tail in ('two', 'partial')) or (
+                    elif (not faults and tail == 'two') or (
                         faults and tail == 'one'
                     ):
                         ks = (2, 3)
